@@ -16,7 +16,7 @@ from numba_scfg.core.datastructures.basic_block import BasicBlock, RegionBlock
 from numba_scfg.core.datastructures.scfg import SCFG
 
 from vpbt import gen_graphs as gg, models as M
-from vpbt.core import Collector, exc_sig, h64
+from vpbt.core import Collector, exc_sig, h64, library_raised
 
 PID = "C13"
 RULE = (
@@ -333,7 +333,9 @@ def _eval_hier(col, g, origin):
     scfg = M.mk_scfg(g)
     try:
         scfg.restructure()
-    except Exception:
+    except Exception as e:
+        if not library_raised(e):
+            raise
         col.count("not_evaluated_stage_raised")
         return
     flat = M.Flat(scfg)
